@@ -504,6 +504,7 @@ func c13compare(o *c13Out, res []string) string {
 
 func runC13(c *Ctx) {
 	r := c.R
+	defer c13nodes(c)
 	r.Rule = "K5 scenarios: pool 1..4 (+ up to 2 joined links), 1-3 sender and 1-3 receiver ids per scenario (receivers addressed by pid, alias or registered name) drawn by residue mod 255 " +
 		"(boundaries 0,1,2,127,253,254, uniform otherwise; magnitudes 10^3, 2^32, 2^63, 2^64-1), 20..80 ops (send / release k frames of one link / join / link loss), " +
 		"harness-decided delivery order; non-trivial = at least one frame was routed before an earlier-sent frame of another link; distinct by the op list"
